@@ -349,9 +349,47 @@ def _shard_cold(rec, hist):
             return
 
 
+# composites that fool weak primality tests: Carmichael numbers, strong pseudoprimes to the first prime bases
+# (the least ones for bases {2}, {2,3}, {2,3,5}, {2,3,5,7}, ...) and the strong pseudoprimes to bases 2,3,5,7 below 10^12
+PSEUDOPRIMES = [341, 561, 645, 1105, 1387, 1729, 1905, 2047, 2465, 2701, 2821, 3277, 4033, 4369, 4681, 6601, 8321, 8911, 10585, 15841, 29341, 41041,
+                46657, 52633, 62745, 63973, 75361, 101101, 115921, 126217, 162401, 172081, 188461, 252601, 278545, 294409, 314821, 334153, 340561,
+                399001, 410041, 449065, 488881, 512461, 825265, 1373653, 25326001, 321197185, 3215031751, 5394826801, 118670087467, 232250619601,
+                307768373641, 315962312077, 354864744877, 457453568161, 528929554561, 546348519181, 602248359169]
+BIG_PSEUDOPRIMES = [2152302898747, 3474749660383, 9746347772161, 341550071728321]   # checked against their known factorisations
+
+
+def _shard_pseudo(rec, arg):
+    shard, nshards = arg
+    for i, n in enumerate(PSEUDOPRIMES):
+        if i % nshards != shard:
+            continue
+        for op in ("æ", "ǐ", "∆Ṗ", "∆ṗ"):
+            for m in ((n,) if op in ("æ", "ǐ") else (n - 1, n, n - 2)):
+                for rep in ("int", "sym"):
+                    r = check_monad(op, m, rep)
+                    rec.case(key=(op, m, rep), nontrivial=True, cls=["pseudoprimes", f"el {op}"])
+                    if r:
+                        rec.fail(r[0] + ":pseudoprime", {"kind": "monad", "op": op, "n": m, "rep": rep}, r[1] + f" [near the pseudoprime {n}]")
+    known = {2152302898747: [6763, 10627, 29947], 3474749660383: [1303, 16927, 157543], 9746347772161: [7, 11, 13, 17, 19, 31, 37, 41, 641],
+             341550071728321: [10670053, 32010157]}
+    for i, n in enumerate(BIG_PSEUDOPRIMES):
+        if i % nshards != shard or math.prod(known[n]) != n:
+            continue
+        for rep in ("int", "sym"):
+            try:
+                got = norm(run_el("æ", n if rep == "int" else sympy.Integer(n))[0])
+            except Exception as e:  # noqa: BLE001
+                got = ("raises", repr(e))
+            rec.case(key=("æ", n, rep), nontrivial=True, cls=["pseudoprimes", "el æ"])
+            if got != F(0):
+                rec.fail("C17:æ:value:pseudoprime", {"kind": "big-pseudo", "n": n, "rep": rep}, f"{n} æ = {harness.jsonable(got)!r}, but {n} = {' x '.join(map(str, known[n]))}")
+
+
 def run(rec, tier, seed):
     quick = tier == "quick"
     ns = campaign.NCPU
+    campaign.parallel(rec, _shard_pseudo, [(s, ns) for s in range(ns)])
+    rec.exhaustive.append(f"{len(PSEUDOPRIMES) + len(BIG_PSEUDOPRIMES)} Carmichael numbers / strong pseudoprimes (and their neighbours for next / previous prime)")
     hists = _cold_histories(seed * 1000 + 77, 400 if quick else 6000)
     campaign.parallel(rec, _shard_cold, hists, fresh=True)
     rec.notes["cold_histories"] = len(hists)
